@@ -34,7 +34,40 @@ FLAVOURS = {
     "ubsan": ["-O2", "-g1", "-fsanitize=undefined", "-fno-sanitize-recover=all",
               "-D_GLIBCXX_ASSERTIONS"],
     "plain": ["-O2", "-g1", "-D_GLIBCXX_ASSERTIONS"],
+    # engine S: ThreadSanitizer *instrumentation only* (our own runtime implements the ABI, rt/sched/sched.cpp)
+    "tsanhook": ["-O1", "-g1", "-fsanitize=thread", "-D_GLIBCXX_ASSERTIONS"],
 }
+
+HOOK_REDEFINE = {
+    "pthread_mutex_lock": "vsched_mutex_lock",
+    "pthread_mutex_unlock": "vsched_mutex_unlock",
+    "pthread_mutex_trylock": "vsched_mutex_trylock",
+}
+# blocking primitives the scheduler does not model: each gets its own stub that stops the run
+# with a harness error (objcopy wants distinct targets)
+for _n in (["pthread_mutex_timedlock", "pthread_mutex_clocklock"] +
+           ["pthread_rwlock_" + x for x in ("rdlock", "wrlock", "unlock", "tryrdlock", "trywrlock", "timedrdlock", "timedwrlock", "clockrdlock", "clockwrlock")] +
+           ["pthread_cond_" + x for x in ("wait", "timedwait", "clockwait", "signal", "broadcast")] +
+           ["pthread_spin_" + x for x in ("lock", "trylock", "unlock")]):
+    HOOK_REDEFINE[_n] = "vsched_unsupported_" + _n
+
+
+def hook_object(obj):
+    """objcopy --redefine-sym: route the blocking pthread calls of an instrumented object to the scheduler."""
+    out = obj[:-2] + ".hook.o"
+    try:
+        if os.stat(out).st_mtime_ns >= os.stat(obj).st_mtime_ns:
+            return out
+    except OSError:
+        pass
+    symfile = os.path.join(OBJ, "hook_redefine.syms")
+    write_if_changed(symfile, "".join("%s %s\n" % kv for kv in sorted(HOOK_REDEFINE.items())))
+    tmp = out + ".tmp%d" % os.getpid()
+    r = subprocess.run(["objcopy", "--redefine-syms=" + symfile, obj, tmp], stdout=subprocess.PIPE, stderr=subprocess.STDOUT, text=True)
+    if r.returncode != 0:
+        raise BuildError("objcopy failed: " + r.stdout)
+    os.replace(tmp, out)
+    return out
 COMMON = ["-std=c++20", "-pthread", "-DFCPPT_STATIC_LINK", "-DENABLE_THREADS", "-w",
           "-fdiagnostics-color=never"]
 
@@ -157,18 +190,25 @@ def lib_sources(lib):
     return sorted(out)
 
 
-def build(name, sources, libs, flavour="asan", extra_flags=(), link_flags=(), post_obj=None):
+def build(name, sources, libs, flavour="asan", extra_flags=(), link_flags=(), hook_libs=()):
     """Build build/bin/<name> from harness sources + the fcppt library sources
-    (compiled from /repo) named in libs."""
+    (compiled from /repo) named in libs.  Libraries in hook_libs are compiled with
+    TSan instrumentation and get their pthread calls redirected (engine S); their
+    objects come first on the link line so that their (instrumented) copies of inline
+    functions win."""
     gen_headers()
     flags = FLAVOURS[flavour] + list(extra_flags)
-    tus = [(os.path.join(VERIF, s) if not os.path.isabs(s) else s, "h") for s in sources]
+    hflags = FLAVOURS["tsanhook"] + list(extra_flags)
+    tus = []
+    for l in hook_libs:
+        tus += [(s, hflags, True) for s in lib_sources(l)]
+    tus += [((os.path.join(VERIF, s) if not os.path.isabs(s) else s), flags, False) for s in sources]
     for l in libs:
-        tus += [(s, "lib") for s in lib_sources(l)]
+        tus += [(s, flags, False) for s in lib_sources(l)]
     objs = [None] * len(tus)
     errs = []
     with concurrent.futures.ThreadPoolExecutor(max_workers=JOBS) as ex:
-        futs = {ex.submit(compile_tu, s, flags): i for i, (s, _) in enumerate(tus)}
+        futs = {ex.submit(compile_tu, s, f): i for i, (s, f, _) in enumerate(tus)}
         for f in concurrent.futures.as_completed(futs):
             try:
                 objs[futs[f]] = f.result()
@@ -176,12 +216,11 @@ def build(name, sources, libs, flavour="asan", extra_flags=(), link_flags=(), po
                 errs.append(str(e))
     if errs:
         raise BuildError("\n".join(errs))
-    if post_obj:
-        objs = post_obj(objs, tus)
+    objs = [hook_object(o) if tus[i][2] else o for i, o in enumerate(objs)]
     os.makedirs(BIN, exist_ok=True)
     out = os.path.join(BIN, name)
     san = [f for f in flags if f.startswith("-fsanitize=")]
-    cmd = [CXX, "-pthread"] + san + objs + ["-o", out] + list(link_flags)
+    cmd = [CXX, "-pthread"] + san + objs + ["-o", out, "-ldl"] + list(link_flags)
     r = subprocess.run(cmd, stdout=subprocess.PIPE, stderr=subprocess.STDOUT, text=True)
     if r.returncode != 0:
         raise BuildError("link failed: %s\n%s" % (name, r.stdout[-6000:]))
